@@ -85,6 +85,16 @@ static void run_plan(const struct plan *p, struct outcome *o, int verbose)
 	}
 	while (waitpid(pid, &st, 0) < 0 && errno == EINTR)
 		;
+	{
+		/* scratch directory of an inotify run */
+		char cmd[128];
+		snprintf(cmd, sizeof(cmd), "/dev/shm/ivsim-ino-%d", (int)pid);
+		if (access(cmd, F_OK) == 0) {
+			snprintf(cmd, sizeof(cmd), "rm -rf /dev/shm/ivsim-ino-%d", (int)pid);
+			if (system(cmd) != 0)
+				perror("rm");
+		}
+	}
 	clock_gettime(CLOCK_MONOTONIC, &t1);
 	o->secs = (double)(t1.tv_sec - t0.tv_sec) + (double)(t1.tv_nsec - t0.tv_nsec) / 1e9;
 	o->exitcode = WIFEXITED(st) ? WEXITSTATUS(st) : -1;
@@ -372,7 +382,7 @@ int main(int argc, char **argv)
 	if (argc >= 3 && !strcmp(argv[1], "exec")) {
 		char err[200];
 		FILE *f = fopen(argv[2], "r");
-		int verbose = argc > 3 && !strcmp(argv[3], "-v");
+		int verbose = argc > 3 && !strcmp(argv[3], "-v") ? 1 : argc > 3 && !strcmp(argv[3], "-vv") ? 2 : 0;
 		const char *od = getenv("IVSIM_OUTDIR");
 		if (!f) {
 			perror(argv[2]);
